@@ -167,14 +167,22 @@ pub fn stream_v5_publish_b(s: &mut Src) { stream_v5_publish_r(s, 5, 9) }
 
 scenarios! {
     #[kani::unwind(14)] c14_to_io_error [1] => to_io_error;
-    #[kani::unwind(10)] c14_stream_v3_publish_a [5] => stream_v3_publish_a;
-    #[kani::unwind(10)] c14_stream_v3_publish_b [5] => stream_v3_publish_b;
+    #[kani::unwind(10)]
+    #[kani::stub(mqtt_proto_sync::TopicName::is_invalid, crate::model::topic_name_class_stub)]
+    c14_stream_v3_publish_a [5] => stream_v3_publish_a;
+    #[kani::unwind(10)]
+    #[kani::stub(mqtt_proto_sync::TopicName::is_invalid, crate::model::topic_name_class_stub)]
+    c14_stream_v3_publish_b [5] => stream_v3_publish_b;
     #[kani::unwind(22)] c14_stream_v3_connect_a [4] => stream_v3_connect_a;
     #[kani::unwind(22)] c14_stream_v3_connect_b [4] => stream_v3_connect_b;
     #[kani::unwind(22)] c14_stream_v3_connect_c [4] => stream_v3_connect_c;
     #[kani::unwind(22)] c14_stream_v3_connect_d [4] => stream_v3_connect_d;
     #[kani::unwind(11)] c14_stream_v5_puback_a [3] => stream_v5_puback_a;
     #[kani::unwind(11)] c14_stream_v5_puback_b [3] => stream_v5_puback_b;
-    #[kani::unwind(12)] c14_stream_v5_publish_a [5] => stream_v5_publish_a;
-    #[kani::unwind(12)] c14_stream_v5_publish_b [5] => stream_v5_publish_b;
+    #[kani::unwind(12)]
+    #[kani::stub(mqtt_proto_sync::TopicName::is_invalid, crate::model::topic_name_class_stub)]
+    c14_stream_v5_publish_a [5] => stream_v5_publish_a;
+    #[kani::unwind(12)]
+    #[kani::stub(mqtt_proto_sync::TopicName::is_invalid, crate::model::topic_name_class_stub)]
+    c14_stream_v5_publish_b [5] => stream_v5_publish_b;
 }
